@@ -11,7 +11,7 @@
    exhaustive enumeration of the oracle run (search, not proof) — see evidence.explanation.
    Precision > 0 (half-ulp bound) and arbitrary bytes (no panic, no write outside the slice) are not
    modelled: they are decided by the exhaustive/random oracle run only. *)
-From MV Require Import Base.Bytes Num.Model Num.Spec Num.Proofs.
+From MV Require Import Base.MvBytes Num.NumModel Num.NumSpec Num.NumProofs.
 
 (* the recogniser accepts exactly the well-formed lexemes and determines their structure *)
 Theorem lexer_sound : forall s p, lex_number s = Some p -> s = unlex p /\ wf_lexed p.
